@@ -22,6 +22,7 @@ import (
 	"strconv"
 	"strings"
 	"time"
+	"unsafe"
 
 	"github.com/9elements/converged-security-suite/v2/pkg/bootflow/actions/commonactions"
 	"github.com/9elements/converged-security-suite/v2/pkg/bootflow/actions/tpmactions"
@@ -47,6 +48,9 @@ const (
 	aLogAdd   = 5
 	aMeasure  = 6
 	aCustom   = 7
+	// commonactions.SetFlowFunc(fn): the flow is whatever fn returns for the
+	// State at the moment the action is applied
+	aSetFlowFunc = 8
 )
 
 const (
@@ -57,21 +61,39 @@ const (
 
 // gAct: one action. Flow / Actor / Meas use -1 for "none / nil".
 type gAct struct {
-	K     int `json:"k"`
-	ID    int `json:"id,omitempty"`
-	Flow  int `json:"flow"`
-	Actor int `json:"actor"`
-	Meas  int `json:"meas"`
-	Res   int `json:"res,omitempty"`
+	K     int   `json:"k"`
+	ID    int   `json:"id,omitempty"`
+	Flow  int   `json:"flow"`
+	Actor int   `json:"actor"`
+	Meas  int   `json:"meas"`
+	Res   int   `json:"res,omitempty"`
+	Fn    *gFun `json:"fn,omitempty"` // aSetFlowFunc
+}
+
+// gFun: the function given to SetFlowFunc / SetFlowFromFunc, a decision tree
+// over the State.
+const (
+	fFlow  = 0 // return flow Flow
+	fIf    = 1 // Cond ? T : E
+	fPanic = 2
+)
+
+type gFun struct {
+	K    int    `json:"k"`
+	Flow int    `json:"flow,omitempty"`
+	Cond *gCond `json:"cond,omitempty"`
+	T    *gFun  `json:"t,omitempty"`
+	E    *gFun  `json:"e,omitempty"`
 }
 
 const (
-	cConst      = 0
-	cActorIs    = 1
-	cMeasuredLt = 2
-	cTPMInited  = 3
-	cNot        = 4
-	cPanic      = 5
+	cConst       = 0
+	cActorIs     = 1
+	cMeasuredLt  = 2
+	cTPMInited   = 3
+	cNot         = 4
+	cPanic       = 5
+	cMeasuredHas = 6 // some entry of State.MeasuredData comes from data source N
 )
 
 type gCond struct {
@@ -83,15 +105,16 @@ type gCond struct {
 }
 
 const (
-	sStatic   = 0
-	sIf       = 1
-	sMerge    = 2
-	sSetFlow  = 3
-	sSetActor = 4
-	sPanic    = 5
-	sInitTPM  = 6
-	sCustom   = 7
-	sMeasure  = 8 // tpmsteps.Measure: a StaticStep with one TPMEvent
+	sStatic      = 0
+	sIf          = 1
+	sMerge       = 2
+	sSetFlow     = 3
+	sSetActor    = 4
+	sPanic       = 5
+	sInitTPM     = 6
+	sCustom      = 7
+	sMeasure     = 8 // tpmsteps.Measure: a StaticStep with one TPMEvent
+	sSetFlowFunc = 9 // commonsteps.SetFlowFromFunc
 )
 
 type gStep struct {
@@ -107,6 +130,7 @@ type gStep struct {
 	WithLog bool     `json:"withlog,omitempty"`
 	ID      int      `json:"id,omitempty"`
 	Panics  bool     `json:"panics,omitempty"`
+	Fn      *gFun    `json:"fn,omitempty"` // sSetFlowFunc
 }
 
 type gTop struct {
@@ -233,6 +257,13 @@ func (c hCond) eval(g *gCond, s *types.State) bool {
 		return err == nil && t.IsInitialized()
 	case cNot:
 		return !c.eval(g.Sub, s)
+	case cMeasuredHas:
+		for i := range s.MeasuredData {
+			if dsID(s.MeasuredData[i].DataSource) == g.N {
+				return true
+			}
+		}
+		return false
 	}
 	panic("condition panics")
 }
@@ -245,7 +276,8 @@ type built struct {
 	actors  map[int]*hActor
 	dss     map[int]*hDS
 	chain   *hChain
-	reg     []regEntry // top-level steps with their sids
+	reg     []regEntry  // top-level steps with their sids
+	funcs   []funcEntry // the flow-choosing functions handed to SetFlowFunc / SetFlowFromFunc
 	tpm     *tpm.TPM
 	state   *types.State
 	process *bootengine.BootProcess
@@ -254,6 +286,48 @@ type built struct {
 type regEntry struct {
 	step types.Step
 	sid  int
+}
+
+type funcEntry struct {
+	f   func(*types.State) types.Flow // keeps the closure alive
+	ptr unsafe.Pointer                // the closure object
+	id  int
+}
+
+// chooser builds the Go function of a gFun and remembers its identity.
+func (b *built) chooser(id int, fn *gFun) func(*types.State) types.Flow {
+	var eval func(fn *gFun, s *types.State) types.Flow
+	eval = func(fn *gFun, s *types.State) types.Flow {
+		switch fn.K {
+		case fFlow:
+			return b.flow(fn.Flow)
+		case fIf:
+			if (hCond{c: fn.Cond, actors: b.actors}).Check(context.Background(), s) {
+				return eval(fn.T, s)
+			}
+			return eval(fn.E, s)
+		}
+		panic(fmt.Sprintf("flow function %d panics", id))
+	}
+	f := func(s *types.State) types.Flow { return eval(fn, s) }
+	b.funcs = append(b.funcs, funcEntry{f: f, ptr: *(*unsafe.Pointer)(unsafe.Pointer(&f)), id: id})
+	return f
+}
+
+// funcID: which of the registered functions a *commonactions.setFlowFunc
+// (a struct whose only field is the function) carries; -99 if none.
+func (b *built) funcID(a types.Action) int {
+	v := reflect.ValueOf(a)
+	if v.Kind() != reflect.Ptr || v.Elem().Kind() != reflect.Struct || v.Elem().NumField() != 1 || v.Elem().Field(0).Kind() != reflect.Func {
+		return -99
+	}
+	p := *(*unsafe.Pointer)(v.UnsafePointer())
+	for _, e := range b.funcs {
+		if e.ptr == p {
+			return e.id
+		}
+	}
+	return -99
 }
 
 func flowName(n int) string { return "F" + strconv.Itoa(n) }
@@ -329,6 +403,8 @@ func (b *built) action(a gAct) types.Action {
 			h.Flow = &f
 		}
 		return h
+	case aSetFlowFunc:
+		return commonactions.SetFlowFunc(b.chooser(a.ID, a.Fn))
 	}
 	panic("bad action kind")
 }
@@ -375,6 +451,8 @@ func (b *built) step(s *gStep) types.Step {
 	case sMeasure:
 		a := s.Acts[0]
 		return tpmsteps.Measure(pcr.ID(a.ID%2), tpmeventlog.EV_POST_CODE, b.ds(a.ID, a.Res))
+	case sSetFlowFunc:
+		return commonsteps.SetFlowFromFunc(b.chooser(s.ID, s.Fn))
 	}
 	panic("bad step kind")
 }
@@ -489,7 +567,7 @@ func dsID(d types.DataSource) int {
 	return -99
 }
 
-func actionCode(a types.Action) [2]int {
+func (b *built) actionCode(a types.Action) [2]int {
 	switch v := a.(type) {
 	case *commonactions.SetFlowStruct:
 		return [2]int{aSetFlow, flowID(v.NextFlow.Name)}
@@ -517,6 +595,8 @@ func actionCode(a types.Action) [2]int {
 		return [2]int{aSetActor, -99}
 	case "commonactions.panicT":
 		return [2]int{aPanic, 0}
+	case "*commonactions.setFlowFunc":
+		return [2]int{aSetFlowFunc, b.funcID(a)}
 	}
 	return [2]int{99, 0}
 }
@@ -547,7 +627,7 @@ func (b *built) observe(done bool) obsResult {
 	for _, e := range b.process.Log {
 		oe := obsEntry{Sid: b.sidOf(e.Step), Actions: [][2]int{}, Issues: []int{}, Actor: actorID(e.Actor), Code: -1}
 		for _, a := range e.Actions {
-			oe.Actions = append(oe.Actions, actionCode(a))
+			oe.Actions = append(oe.Actions, b.actionCode(a))
 		}
 		for _, is := range e.Issues {
 			code := issueCode(is.Coords)
@@ -651,8 +731,20 @@ func galAct(a gAct) string {
 		return "ATPMMeasure " + gal.Z(int64(a.ID)) + " " + galRes(a.Res)
 	case aCustom:
 		return "ACustom " + gal.Z(int64(a.ID)) + " " + optZ(a.Meas) + " " + optZ(a.Flow) + " " + galRes(a.Res)
+	case aSetFlowFunc:
+		return "ASetFlowFunc " + gal.Z(int64(a.ID)) + " (" + galFun(a.Fn) + ")"
 	}
 	panic("bad action")
+}
+
+func galFun(f *gFun) string {
+	switch f.K {
+	case fFlow:
+		return "FFlow " + gal.Z(int64(f.Flow))
+	case fIf:
+		return "FIf (" + galCond(f.Cond) + ") (" + galFun(f.T) + ") (" + galFun(f.E) + ")"
+	}
+	return "FPanic"
 }
 
 func galActs(as []gAct) string {
@@ -675,6 +767,8 @@ func galCond(c *gCond) string {
 		return "CTPMInited"
 	case cNot:
 		return "CNot (" + galCond(c.Sub) + ")"
+	case cMeasuredHas:
+		return "CMeasuredHas " + gal.Z(int64(c.N))
 	}
 	return "CPanic"
 }
@@ -708,6 +802,8 @@ func galStep(s *gStep) string {
 		return "SInitTPM " + gal.Bool(s.WithLog)
 	case sCustom:
 		return "SCustom " + gal.Z(int64(s.ID)) + " " + gal.Bool(s.Panics) + " " + galActs(s.Acts)
+	case sSetFlowFunc:
+		return "SSetFlowFunc " + gal.Z(int64(s.ID)) + " (" + galFun(s.Fn) + ")"
 	}
 	panic("bad step")
 }
@@ -786,6 +882,10 @@ type oracle struct {
 	log      []obsEntry
 	finished bool
 	lastFlow int
+	// statistics only: function-based set-flows applied, and how many of them
+	// chose differently from what the state at the start of their step gives
+	funcApplied, funcSensitive int
+	stepStart                  *oracle // snapshot of the state when the current step began
 }
 
 type stepPanic struct{}
@@ -835,6 +935,9 @@ func (o *oracle) want(s *gStep) []gAct {
 			panic(stepPanic{})
 		}
 		return s.Acts
+	case sSetFlowFunc:
+		// the step asks for ONE action; which flow it leads to is not known yet
+		return []gAct{{K: aSetFlowFunc, ID: s.ID, Fn: s.Fn, Flow: -1, Actor: -1, Meas: -1}}
 	}
 	panic("oracle: bad step")
 }
@@ -851,8 +954,42 @@ func (o *oracle) holds(c *gCond) bool {
 		return o.tpm == 1
 	case cNot:
 		return !o.holds(c.Sub)
+	case cMeasuredHas:
+		for _, m := range o.measured {
+			if m == c.N {
+				return true
+			}
+		}
+		return false
 	}
 	panic(stepPanic{})
+}
+
+// choose: the flow the function returns for the state as it is NOW
+// (ok=false: the function panics).
+func (o *oracle) choose(fn *gFun) (flow int, ok bool) {
+	defer func() {
+		if r := recover(); r != nil {
+			if _, is := r.(stepPanic); !is {
+				panic(r)
+			}
+			flow, ok = -1, false
+		}
+	}()
+	for {
+		switch fn.K {
+		case fFlow:
+			return fn.Flow, true
+		case fIf:
+			if o.holds(fn.Cond) {
+				fn = fn.T
+			} else {
+				fn = fn.E
+			}
+		default:
+			return -1, false
+		}
+	}
 }
 
 // perform one action: returns failed, and the flow switched to (-1: none)
@@ -887,6 +1024,21 @@ func (o *oracle) perform(a gAct) (failed bool, newFlow int) {
 			newFlow = a.Flow
 		}
 		failed = a.Res != rOk
+	case aSetFlowFunc:
+		// applying the action = asking the function about the current state,
+		// i.e. after every action applied before this one
+		f, ok := o.choose(a.Fn)
+		o.funcApplied++
+		if o.stepStart != nil {
+			if f0, ok0 := o.stepStart.choose(a.Fn); f0 != f || ok0 != ok {
+				o.funcSensitive++
+			}
+		}
+		if ok {
+			newFlow = f
+		} else {
+			failed = true // a panicking action: an issue, nothing switched
+		}
 	}
 	return
 }
@@ -901,6 +1053,8 @@ func wantCode(a gAct) [2]int {
 		return [2]int{aMeasure, a.ID}
 	case aCustom:
 		return [2]int{aCustom, a.ID}
+	case aSetFlowFunc:
+		return [2]int{aSetFlowFunc, a.ID}
 	}
 	return [2]int{a.K, 0}
 }
@@ -909,6 +1063,7 @@ func wantCode(a gAct) [2]int {
 func (o *oracle) runStep(ts gTop) int {
 	e := obsEntry{Sid: ts.Sid, Actions: [][2]int{}, Issues: []int{}, Measured: []int{}, Code: -1}
 	before := len(o.measured)
+	o.stepStart = &oracle{actor: o.actor, tpm: o.tpm, measured: append([]int{}, o.measured...)}
 	var acts []gAct
 	func() {
 		defer func() {
@@ -1007,7 +1162,15 @@ func eqCodes(a, b [][2]int) bool {
 const site = "pkg/bootflow/bootengine/boot_process.go"
 
 // judge compares the observed run with the oracle; returns "" or the violated clause.
-func judge(gc *gCase, obs obsResult) (what string, where string) {
+func judge(gc *gCase, obs obsResult) (what string, where string, o *oracle) {
+	what, where = "", ""
+	o = newOracle(gc)
+	o.runFlow(gc.Root)
+	what, where = judgeWith(gc, obs, o)
+	return
+}
+
+func judgeWith(gc *gCase, obs obsResult, o *oracle) (what string, where string) {
 	if obs.Panicked {
 		return "a panic / hang escaped the interpreter: " + obs.Msg, site + " safeWrapper"
 	}
@@ -1020,8 +1183,6 @@ func judge(gc *gCase, obs obsResult) (what string, where string) {
 	if !eqInts(cat, obs.Measured) {
 		return fmt.Sprintf("measured data of the log entries concatenated %v != State.MeasuredData %v", cat, obs.Measured), site + " NextStep"
 	}
-	o := newOracle(gc)
-	o.runFlow(gc.Root)
 	if len(obs.Log) != len(o.log) {
 		n := len(obs.Log)
 		if len(o.log) < n {
@@ -1034,11 +1195,16 @@ func judge(gc *gCase, obs obsResult) (what string, where string) {
 		}
 		return fmt.Sprintf("log has %d entries, %d steps are to be executed", len(obs.Log), len(o.log)), site + " stateNextStep"
 	}
+	// which steps were executed, in which order
+	for i := range o.log {
+		if g, w := obs.Log[i], o.log[i]; g.Sid != w.Sid {
+			return fmt.Sprintf("log entry %d is step %d, expected step %d", i, g.Sid, w.Sid), site + " stateNextStep"
+		}
+	}
+	// what each of them did
 	for i := range o.log {
 		g, w := obs.Log[i], o.log[i]
 		switch {
-		case g.Sid != w.Sid:
-			return fmt.Sprintf("log entry %d is step %d, expected step %d", i, g.Sid, w.Sid), site + " stateNextStep"
 		case !eqCodes(g.Actions, w.Actions):
 			return fmt.Sprintf("log entry %d (step %d): actions %v, expected %v", i, g.Sid, g.Actions, w.Actions), site + " stateNextStep"
 		case !eqInts(g.Measured, w.Measured):
@@ -1071,11 +1237,13 @@ type gen struct {
 	nextSid int
 	nextID  int
 	targets []int // flow names the current flow may switch to
+	// chance (percent, per top-level or nested step) of a step built by coupled()
+	coupledPct int
 }
 
-func (g *gen) rn(n int) int { return g.c.Rng.Intn(n) }
+func (g *gen) rn(n int) int   { return g.c.Rng.Intn(n) }
 func (g *gen) p(pct int) bool { return g.c.Rng.Intn(100) < pct }
-func (g *gen) id() int      { g.nextID++; return g.nextID }
+func (g *gen) id() int        { g.nextID++; return g.nextID }
 
 func (g *gen) actorID() int {
 	if g.p(15) {
@@ -1091,11 +1259,143 @@ func (g *gen) target() int {
 	return g.targets[g.rn(len(g.targets))]
 }
 
+// two different targets when the family offers them
+func (g *gen) twoTargets() (int, int) {
+	x := g.target()
+	y := g.target()
+	for i := 0; i < 4 && y == x; i++ {
+		y = g.target()
+	}
+	if y == x {
+		y = 100 + (x+1)%3 // a flow with nil Steps
+		if y == x {
+			y = 100 + (x+2)%3
+		}
+	}
+	return x, y
+}
+
+// fun: a random flow-choosing function.
+func (g *gen) fun(depth int) *gFun {
+	switch r := g.rn(100); {
+	case r < 55 && depth > 0:
+		return &gFun{K: fIf, Cond: g.cond(1), T: g.fun(depth - 1), E: g.fun(depth - 1)}
+	case r < 62:
+		return &gFun{K: fPanic}
+	}
+	return &gFun{K: fFlow, Flow: g.target()}
+}
+
+// sensitiveFun: a function whose answer flips when cond flips.
+func (g *gen) sensitiveFun(c *gCond) *gFun {
+	x, y := g.twoTargets()
+	f := &gFun{K: fIf, Cond: c, T: &gFun{K: fFlow, Flow: x}, E: &gFun{K: fFlow, Flow: y}}
+	switch r := g.rn(100); {
+	case r < 25:
+		f.Cond = &gCond{K: cNot, Sub: c}
+	case r < 35:
+		f.E = &gFun{K: fPanic}
+	case r < 45:
+		f.T = &gFun{K: fPanic}
+	case r < 55:
+		f.E = g.fun(1)
+	}
+	return f
+}
+
+// coupled: a step in which a function-based set-flow comes AFTER an action
+// that changes the part of the State its function looks at (actor, TPM,
+// measurements), optionally followed by actions that must be skipped. The
+// container is a merged step, a static / custom step, or a branch of a
+// conditional.
+func (g *gen) coupled() *gStep {
+	none := gAct{Flow: -1, Actor: -1, Meas: -1}
+	var chA gAct   // the change, as an action
+	var chS *gStep // the change, as a step (nil: only available as an action)
+	var c *gCond
+	switch r := g.rn(100); {
+	case r < 40:
+		a := g.rn(8)
+		chA = none
+		chA.K, chA.Actor = aSetActor, a
+		chS = &gStep{K: sSetActor, Actor: a}
+		c = &gCond{K: cActorIs, Actor: a}
+	case r < 60:
+		chA = none
+		chA.K, chA.ID = aTPMInit, g.rn(5)
+		chS = &gStep{K: sInitTPM, ID: chA.ID, WithLog: g.p(30)}
+		c = &gCond{K: cTPMInited}
+	case r < 80:
+		// a harness action that measures unconditionally (and may then fail)
+		chA = none
+		chA.K, chA.ID, chA.Meas, chA.Res = aCustom, g.id(), g.id(), g.rn(3)
+		c = &gCond{K: cMeasuredHas, N: chA.Meas}
+		if g.p(40) {
+			c = &gCond{K: cMeasuredLt, N: 1 + g.rn(4)}
+		}
+	default:
+		// a TPM measurement (needs an initialised TPM to happen)
+		chA = none
+		chA.K, chA.ID = aMeasure, g.id()
+		chS = &gStep{K: sMeasure, Acts: []gAct{chA}}
+		c = &gCond{K: cMeasuredHas, N: chA.ID}
+	}
+	fn := g.sensitiveFun(c)
+	fnA := none
+	fnA.K, fnA.ID, fnA.Fn = aSetFlowFunc, g.id(), fn
+	var s *gStep
+	if chS != nil && g.p(60) {
+		// MergeSteps{[noise,] change, [noise,] SetFlowFromFunc(fn), [skipped]}
+		s = &gStep{K: sMerge}
+		if g.p(25) {
+			s.Subs = append(s.Subs, g.step(0, 0))
+		}
+		s.Subs = append(s.Subs, chS)
+		if g.p(25) {
+			s.Subs = append(s.Subs, g.step(0, 0))
+		}
+		if g.p(70) {
+			s.Subs = append(s.Subs, &gStep{K: sSetFlowFunc, ID: fnA.ID, Fn: fn})
+		} else {
+			s.Subs = append(s.Subs, &gStep{K: sStatic, Acts: []gAct{fnA}})
+		}
+		if g.p(50) {
+			s.Subs = append(s.Subs, g.step(0, 10))
+		}
+	} else {
+		acts := []gAct{}
+		if g.p(25) {
+			acts = append(acts, g.act(0))
+		}
+		acts = append(acts, chA)
+		if g.p(25) {
+			acts = append(acts, g.act(0))
+		}
+		acts = append(acts, fnA)
+		if g.p(50) {
+			acts = append(acts, g.act(10))
+		}
+		s = &gStep{K: sStatic, Acts: acts}
+		if g.p(25) {
+			s = &gStep{K: sCustom, ID: g.id(), Acts: acts}
+		}
+	}
+	if g.p(20) {
+		s = &gStep{K: sIf, Cond: g.cond(1), Then: s, Else: s}
+		if g.p(50) {
+			s.Else = g.step(0, 10)
+		}
+	}
+	return s
+}
+
 func (g *gen) act(switchPct int) gAct {
 	a := gAct{Flow: -1, Actor: -1, Meas: -1}
 	if g.p(switchPct) {
-		if g.p(60) {
+		if r := g.rn(100); r < 40 {
 			a.K, a.Flow = aSetFlow, g.target()
+		} else if r < 65 {
+			a.K, a.ID, a.Fn = aSetFlowFunc, g.id(), g.fun(2)
 		} else {
 			a.K, a.ID, a.Flow, a.Res = aCustom, g.id(), g.target(), g.rn(3)
 			if g.p(40) {
@@ -1145,8 +1445,10 @@ func (g *gen) cond(depth int) *gCond {
 		return &gCond{K: cConst, B: g.p(50)}
 	case r < 55:
 		return &gCond{K: cActorIs, Actor: g.actorID()}
-	case r < 72:
+	case r < 68:
 		return &gCond{K: cMeasuredLt, N: g.rn(6)}
+	case r < 72:
+		return &gCond{K: cMeasuredHas, N: 1 + g.rn(g.nextID+2)}
 	case r < 82:
 		return &gCond{K: cTPMInited}
 	case r < 94 && depth > 0:
@@ -1158,6 +1460,9 @@ func (g *gen) cond(depth int) *gCond {
 }
 
 func (g *gen) step(depth, switchPct int) *gStep {
+	if depth > 0 && switchPct > 0 && g.p(g.coupledPct) {
+		return g.coupled()
+	}
 	r := g.rn(100)
 	if depth <= 0 && r >= 30 && r < 58 {
 		r = g.rn(30)
@@ -1192,6 +1497,9 @@ func (g *gen) step(depth, switchPct int) *gStep {
 		}
 		return s
 	case r < 58+switchPct:
+		if g.p(40) {
+			return &gStep{K: sSetFlowFunc, ID: g.id(), Fn: g.fun(2)}
+		}
 		return &gStep{K: sSetFlow, Flow: g.target()}
 	case r < 76:
 		return &gStep{K: sSetActor, Actor: g.actorID()}
@@ -1226,6 +1534,10 @@ func (g *gen) top(s *gStep) gTop {
 // higher level (levels 0..3, so a chain visits at most 4 flows of the family).
 func (g *gen) family(acyclic bool) *gCase {
 	g.nextSid, g.nextID = 0, 0
+	g.coupledPct = 0
+	if g.p(50) {
+		g.coupledPct = 4 + g.rn(12)
+	}
 	nf := 1 + g.rn(6)
 	level := make([]int, nf)
 	for i := 1; i < nf; i++ {
@@ -1296,6 +1608,21 @@ func customA(id, meas, flow, res int) gAct {
 	return gAct{K: aCustom, ID: id, Meas: meas, Flow: flow, Actor: -1, Res: res}
 }
 func static(as ...gAct) *gStep { return &gStep{K: sStatic, Acts: as} }
+func setActorA(a int) gAct {
+	x := act(aSetActor)
+	x.Actor = a
+	return x
+}
+func flowF(f int) *gFun { return &gFun{K: fFlow, Flow: f} }
+func ifF(c *gCond, t, e *gFun) *gFun {
+	return &gFun{K: fIf, Cond: c, T: t, E: e}
+}
+func funcA(id int, fn *gFun) gAct {
+	a := act(aSetFlowFunc)
+	a.ID, a.Fn = id, fn
+	return a
+}
+func funcS(id int, fn *gFun) *gStep { return &gStep{K: sSetFlowFunc, ID: id, Fn: fn} }
 
 func fixedCases() []*gCase {
 	var r []*gCase
@@ -1352,6 +1679,38 @@ func fixedCases() []*gCase {
 	mk("conditions see the state at the start of the step", 1,
 		fl(0, &gStep{K: sMerge, Subs: []*gStep{{K: sSetActor, Actor: 5}, {K: sIf, Cond: &gCond{K: cActorIs, Actor: 5}, Then: static(measA(1, 0)), Else: static(measA(2, 0))}}},
 			&gStep{K: sIf, Cond: &gCond{K: cActorIs, Actor: 5}, Then: static(measA(3, 0)), Else: static(measA(4, 0))}))
+	// function-based set-flow: the function is asked when the action is applied
+	actorIs := func(a int) *gCond { return &gCond{K: cActorIs, Actor: a} }
+	three := func() []gFlow {
+		return []gFlow{fl(1, static(measA(11, 0))), fl(2, static(measA(12, 0))), fl(3, static(measA(13, 0)))}
+	}
+	mk("flow function in a merged step sees the actions merged before it", 1,
+		append([]gFlow{fl(0, &gStep{K: sSetActor, Actor: 4},
+			&gStep{K: sMerge, Subs: []*gStep{{K: sSetActor, Actor: 5}, funcS(1, ifF(actorIs(5), flowF(1), flowF(2))), {K: sSetActor, Actor: 6}}},
+			&gStep{K: sSetActor, Actor: 7})}, three()...)...)
+	mk("flow function action sees the actions applied before it in the same step", 0,
+		append([]gFlow{fl(0, static(act(aTPMInit), customA(1, 2, -1, rErr), funcA(3, ifF(&gCond{K: cTPMInited}, ifF(&gCond{K: cMeasuredHas, N: 2}, flowF(1), flowF(2)), flowF(3))), measA(4, 0)),
+			static(measA(5, 0)))}, three()...)...)
+	mk("flow function inside a conditional inside a merged step", 1,
+		append([]gFlow{fl(0, &gStep{K: sMerge, Subs: []*gStep{static(measA(1, 0)),
+			{K: sIf, Cond: &gCond{K: cMeasuredLt, N: 1}, Then: funcS(2, ifF(&gCond{K: cMeasuredLt, N: 1}, flowF(1), flowF(2))), Else: funcS(3, flowF(3))}}},
+			static(measA(4, 0)))}, three()...)...)
+	mk("panicking flow function: an issue of that action, the rest of the step still runs", 1,
+		append([]gFlow{fl(0, &gStep{K: sMerge, Subs: []*gStep{static(measA(1, 0)), funcS(2, &gFun{K: fPanic}), static(measA(3, 0))}},
+			static(funcA(4, ifF(&gCond{K: cPanic}, flowF(1), flowF(2))), measA(5, 0), funcA(6, ifF(&gCond{K: cMeasuredHas, N: 5}, flowF(3), &gFun{K: fPanic})), measA(7, 0)),
+			static(measA(8, 0)))}, three()...)...)
+	mk("flow function that panics only for the state before the step", 1,
+		append([]gFlow{fl(0, &gStep{K: sMerge, Subs: []*gStep{{K: sSetActor, Actor: 5}, static(measA(1, 0)), funcS(2, ifF(actorIs(5), flowF(1), &gFun{K: fPanic})), static(measA(3, 0))}},
+			static(measA(4, 0)))}, three()...)...)
+	mk("flow function listed after an earlier switch is not applied", 1,
+		append([]gFlow{fl(0, static(setFlowA(1), funcA(1, flowF(2))), static(measA(1, 0)))}, three()...)...)
+	mk("stand-alone flow function steps", 1,
+		fl(0, funcS(1, ifF(&gCond{K: cTPMInited}, flowF(1), flowF(2))), static(measA(1, 0))),
+		fl(1, static(measA(2, 0)), funcS(2, flowF(100))), fl(2, static(measA(3, 0))))
+	fc := mk("the same flow function action applied on every round of a cycle", 1,
+		fl(0, static(customA(1, 2, -1, rOk)), static(funcA(3, ifF(&gCond{K: cMeasuredLt, N: 3}, flowF(0), flowF(1))), measA(4, 0))),
+		fl(1, static(measA(5, 0)), funcS(6, ifF(&gCond{K: cMeasuredLt, N: 6}, flowF(0), flowF(100)))))
+	fc.Steps = 20
 	mk("actors of every kind", 1, fl(0, &gStep{K: sSetActor, Actor: 4}, &gStep{K: sSetActor, Actor: 5}, &gStep{K: sSetActor, Actor: 6}, &gStep{K: sSetActor, Actor: 7}, &gStep{K: sSetActor, Actor: -1}, static(measA(1, 0))))
 	mk("tpm steps without a TPM", -1, fl(0, &gStep{K: sInitTPM, WithLog: true}, &gStep{K: sMeasure, Acts: []gAct{measA(1, 0)}}, &gStep{K: sInitTPM}))
 	mk("tpm steps, TPM not initialised", 0, fl(0, &gStep{K: sMeasure, Acts: []gAct{measA(1, 0)}}, &gStep{K: sInitTPM, WithLog: true}, &gStep{K: sMeasure, Acts: []gAct{measA(2, 0)}}, &gStep{K: sInitTPM}, &gStep{K: sMeasure, Acts: []gAct{measA(3, 1)}}, &gStep{K: sMeasure, Acts: []gAct{measA(4, 2)}}, &gStep{K: sMeasure, Acts: []gAct{measA(5, 0)}}))
@@ -1414,13 +1773,28 @@ func stats(c *gal.Ctx, gc *gCase, o obsResult) {
 	if len(o.Measured) > len(gc.Meas0) {
 		c.Count("runs with measurements")
 	}
+	for _, e := range o.Log {
+		for _, a := range e.Actions {
+			if a[0] == aSetFlowFunc {
+				c.Count("runs with a function-based set-flow in an executed step")
+				return
+			}
+		}
+	}
 }
 
 func one(c *gal.Ctx, kind string, gc *gCase) {
 	o := run(gc)
 	idx := c.Add(kind, galCase(gc, o), gc, nontrivial(o))
 	stats(c, gc, o)
-	if what, where := judge(gc, o); what != "" {
+	what, where, or := judge(gc, o)
+	if or != nil && or.funcApplied > 0 {
+		c.Count("runs applying a function-based set-flow")
+	}
+	if or != nil && or.funcSensitive > 0 {
+		c.Count("runs where a flow function answers differently for the state at the start of its step")
+	}
+	if what != "" {
 		c.OracleFail(idx, what, where, gc)
 	} else {
 		c.OracleOK()
@@ -1463,7 +1837,8 @@ func main() {
 	}
 
 	c.Finish("random acyclic families (<=6 flows in 4 levels, <=8 steps per flow, nesting <=2 of If/Merge, nil and empty flows, nil steps, " +
-		"switching first steps, failing/panicking steps, actions, conditions and data sources, actor changes, TPM present/absent/initialised) run with Finish; " +
+		"switching first steps, failing/panicking steps, actions, conditions and data sources, actor changes, TPM present/absent/initialised, " +
+		"static and function-based set-flow steps/actions incl. functions placed after an action of the same step that changes what they look at, panicking functions) run with Finish; " +
 		"every fifth family is cyclic and run with a bounded number of NextStep calls; fixed edge cases; " +
 		"a case is non-trivial when at least two steps were executed; distinct = distinct Gallina literal")
 }
